@@ -413,7 +413,7 @@ def _run_shard(ctx, args):
                             "best decoded packing (feasibility judged by "
                             "the decode contract)", None)
         except ValueError as e:
-            if "does not fit" in str(e) or "must be in" in str(e):
+            if wb.outside_domain(desc):
                 ctx.count("generator_rejected_by_ctor")
                 continue
             raise
